@@ -587,6 +587,9 @@ func (g *FnGen) evalCall(env *Env, x *ECall) SVal {
 			}
 		}
 		return SVal{Term{fmt.Sprintf("(forall ((r! Int)) (=> %s (and %s true)))", cond, strings.Join(eqs, " ")), "Bool"}, boolT}
+	case "bitand":
+		a, b := arg(0), arg(1)
+		return SVal{Term{fmt.Sprintf("(ibitand %s %s)", a.S, b.S), "Int"}, intT}
 	case "arr":
 		a := arg(0)
 		if !strings.HasPrefix(a.Sort, "Slice_") {
